@@ -35,18 +35,30 @@ func checkC11(w *World, r *Report) {
 		return c != nil && strings.HasSuffix(calleeName(c), suffix)
 	}
 	// ---- 1. gate + purge in one W region before any wait
+	// the flag store and the purge may sit in helpers of the shutdown function: they are then
+	// represented by the helper's call in the shutdown function (liftTo), and the helper itself
+	// must not release the lock
 	var flagStore ssa.Instruction
-	for _, st := range ro.storesTo(sd, "PipelineRunner.isShuttingDown", func(s *ssa.Store) bool { return isBoolConst(s.Val, true) }) {
-		flagStore = st
+	region := append([]*ssa.Function{sd}, ro.helpersOf(sd)...)
+	helperUnlocks := false
+	for _, f := range region {
+		for _, st := range ro.storesTo(f, "PipelineRunner.isShuttingDown", func(s *ssa.Store) bool { return isBoolConst(s.Val, true) }) {
+			flagStore = ro.liftTo(sd, st)
+		}
 	}
 	var purge ssa.Instruction
-	allInstrs(sd, func(in ssa.Instruction) {
-		if c, ok := in.(*ssa.Call); ok {
-			if b, ok := c.Call.Value.(*ssa.Builtin); ok && b.Name() == "delete" && ro.isWaitListMap(c.Call.Args[0]) {
-				purge = in
+	for _, f := range region {
+		allInstrs(f, func(in ssa.Instruction) {
+			if c, ok := in.(*ssa.Call); ok {
+				if b, ok := c.Call.Value.(*ssa.Builtin); ok && b.Name() == "delete" && ro.isWaitListMap(c.Call.Args[0]) {
+					purge = ro.liftTo(sd, in)
+				}
 			}
-		}
-	})
+			if f != sd && (isCall(in, "RWMutex).Unlock") || isCall(in, "RWMutex).Lock")) {
+				helperUnlocks = true
+			}
+		})
+	}
 	isWaitPoint := func(x ssa.Instruction) bool {
 		if _, ok := x.(*ssa.Select); ok {
 			return true
@@ -72,12 +84,14 @@ func checkC11(w *World, r *Report) {
 		waitBefore := PathQuery{Fn: sd, Target: isWaitPoint, BlockInstr: func(x ssa.Instruction) bool { return x == flagStore }}.Find()
 		// every listed job is marked canceled in the purge loop
 		marked := false
-		for _, st := range ro.storesTo(sd, "PipelineJob.Canceled", func(s *ssa.Store) bool { return isBoolConst(s.Val, true) }) {
-			if strings.HasPrefix(w.apAddr(st.Addr), "rangeval(recv.waitListByPipeline)[") {
-				marked = true
+		for _, f := range region {
+			for _, st := range ro.storesTo(f, "PipelineJob.Canceled", func(s *ssa.Store) bool { return isBoolConst(s.Val, true) }) {
+				if strings.HasPrefix(w.apAddr(st.Addr), "rangeval(recv.waitListByPipeline)[") {
+					marked = true
+				}
 			}
 		}
-		r.Check(lock != nil && unlockBetween.Found && !waitBefore.Found && marked, "gate.region", sname+": flag and purge in one write-lock region before any wait", w.InstrPos(flagStore),
+		r.Check(lock != nil && unlockBetween.Found && !waitBefore.Found && marked && !helperUnlocks, "gate.region", sname+": flag and purge in one write-lock region before any wait", w.InstrPos(flagStore),
 			"Lock → isShuttingDown = true → every waiting job canceled, every wait list deleted, with no Unlock in between and no wait point before",
 			fmt.Sprintf("shutdown gate broken (write lock held=%v, purge reachable without unlock=%v, a wait point precedes the gate=%v, listed jobs marked canceled=%v): requests accepted while shutting down can be left unfinished", lock != nil, unlockBetween.Found, waitBefore.Found, marked))
 	}
@@ -214,7 +228,7 @@ func checkC11(w *World, r *Report) {
 	}
 
 	// ---- 4. forced / graceful
-	res := w.EnumPaths(sd, EnumOpts{MaxPaths: 20000})
+	res := w.EnumPaths(sd, EnumOpts{Inline: true, MaxPaths: 20000})
 	r.Count("paths", len(res.Paths))
 	doneIdx := ""
 	allInstrs(sd, func(in ssa.Instruction) {
